@@ -64,6 +64,20 @@ theorem rounds_quiescent {fp : Hash → Bool} : ∀ (n : Nat) {c : Cfg}, Quiesce
     show rounds fp n (round fp c) = c
     rw [round_quiescent hq]; exact rounds_quiescent n hq
 
+/-- documents only grow: no step removes a change from either change graph -/
+theorem Step.applied_mono {fp : Hash → Bool} {c c' : Cfg} (h : Step fp c c') : Inv c →
+    (∀ x ∈ c.docA.applied, x ∈ c'.docA.applied) ∧ (∀ x ∈ c.docB.applied, x ∈ c'.docB.applied) := by
+  induction h with
+  | edit c ch _ _ _ => exact fun _ => ⟨fun x hx => List.mem_cons_of_mem _ hx, fun _ hx => hx⟩
+  | gen c => exact fun _ => ⟨fun _ hx => hx, fun _ hx => hx⟩
+  | recv c m rest _ =>
+    intro inv
+    refine ⟨fun _ hx => hx, ?_⟩
+    exact (recvDoc_spec c.docB _ m inv.b.wf).2.1
+  | swap c c' _ ih =>
+    intro inv
+    exact ⟨(ih inv.swap).2, (ih inv.swap).1⟩
+
 /-! ### C21: reconnecting -/
 
 theorem Inv.reconnect {c : Cfg} (inv : Inv c) (ra rb : Reconn) : Inv (c.reconnect ra rb) := by
